@@ -446,7 +446,11 @@ def compile_ast(
             )
 
             if nd.how == "left":
-                joined = df.join(joined, on="__INDEX__", how="left").drop("__INDEX__")
+                # only take the right columns from `joined`; the left ones would get a
+                # "_right" suffix from polars and could collide with right column names
+                joined = df.join(
+                    joined.select("__INDEX__", *right_name_in_df.values()), on="__INDEX__", how="left"
+                ).drop("__INDEX__")
 
             df = joined
 
